@@ -10,6 +10,7 @@ import (
 	"go.mongodb.org/mongo-driver/bson/primitive"
 
 	"github.com/256dpi/lungo/bsonkit"
+	"github.com/256dpi/lungo/mongokit"
 )
 
 const (
@@ -60,6 +61,17 @@ func validateReplacement(doc bsonkit.Doc) error {
 		return fmt.Errorf("replacement document cannot contain keys beginning with '$'")
 	}
 	return nil
+}
+
+// checkProjection reports the errors of a projection that do not depend on
+// the projected document (mix of inclusion and exclusion, malformed operator
+// arguments). It is used to reject an invalid projection before a write is
+// performed and also if no document is found.
+func checkProjection(projection bsonkit.Doc) error {
+	_, err := mongokit.Project(&bson.D{
+		bson.E{Key: "_id", Value: nil},
+	}, projection)
+	return err
 }
 
 func useTransaction(ctx context.Context, engine *Engine, lock bool, fn func(*Transaction) (interface{}, error)) (interface{}, error) {
